@@ -3,6 +3,7 @@ package sim
 // C09 (all-to-one collector) — votes form a QC exactly when a quorum voted for that block.
 
 import (
+	"sync"
 	"bytes"
 	"fmt"
 	"os"
@@ -20,9 +21,31 @@ import (
 	"pgregory.net/rapid"
 )
 
+// lockedLog collects a log that verification goroutines write concurrently.
+type lockedLog struct {
+	mu  sync.Mutex
+	buf bytes.Buffer
+}
+
+func (l *lockedLog) Write(p []byte) (int, error) {
+	l.mu.Lock()
+	defer l.mu.Unlock()
+	return l.buf.Write(p)
+}
+
+func (l *lockedLog) contains(s string) bool {
+	l.mu.Lock()
+	defer l.mu.Unlock()
+	return bytes.Contains(l.buf.Bytes(), []byte(s))
+}
+
+// knownFlood is the fingerprint of open finding 40.
+const knownFlood = "parked-votes-evicted-by-flood"
+
 type vmsg struct {
 	K    string // vote | dup | other-block | unknown-block | old-block | garbage | multi | non-member | empty-agg | propose | propose-other
 	From int    // voter id 2..N
+	Count int   `json:",omitempty"` // flood: that many votes for a block nobody stores, all from this replica
 }
 
 type c09Case struct {
@@ -30,6 +53,7 @@ type c09Case struct {
 	Crypto string
 	Async  bool
 	Msgs   []vmsg
+	LoopCap int `json:",omitempty"` // capacity of the collector's event queue (0: large; the repository's wiring uses 100)
 }
 
 func sigOf(st *Stack, m []byte) hotstuff.QuorumSignature {
@@ -80,8 +104,15 @@ func c09Prop(c c09Case) common.Result {
 		kit.Capture = firstRunLog
 		defer func() { kit.Capture = nil; firstRunLog = nil }()
 	}
+	// with a small event queue the loop's own report of dropped events is read from its log
+	var dropLog *lockedLog
+	if c.LoopCap > 0 && kit.Capture == nil {
+		dropLog = &lockedLog{}
+		kit.Capture = dropLog
+		defer func() { kit.Capture = nil }()
+	}
 	// replica 1 (the subject) leads view 2 and therefore collects the votes for the block of view 1, proposed by replica 2
-	cfg := Config{N: c.N, Rules: "chainedhotstuff", Crypto: c.Crypto, Batch: 1, Leaders: []int{2, 1, 3, 3, 3, 3, 3, 3}, AsyncVotes: c.Async}
+	cfg := Config{N: c.N, Rules: "chainedhotstuff", Crypto: c.Crypto, Batch: 1, Leaders: []int{2, 1, 3, 3, 3, 3, 3, 3}, AsyncVotes: c.Async, LoopCap: c.LoopCap}
 	base := 0
 	if c.Async {
 		base = stableGoroutines() + 1 // + the cluster's watchdog
@@ -128,6 +159,7 @@ func c09Prop(c c09Case) common.Result {
 	haveB1, haveOther := false, false
 	expectQC, expectOtherQC := false, false
 	hostileBefore, early := 0, 0
+	floods := 0
 	formedAt := -1
 	for step, m := range c.Msgs {
 		from := m.From
@@ -203,6 +235,13 @@ func c09Prop(c c09Case) common.Result {
 		case "unknown-block":
 			ok = deliver(from, vote(st, unknown))
 			hostileBefore++
+		case "flood":
+			// one replica sends many votes for a block nobody stores (each is parked until the next proposal arrives)
+			for k := 0; k < m.Count && ok; k++ {
+				ok = deliver(from, vote(st, unknown))
+			}
+			hostileBefore++
+			floods++
 		case "old-block":
 			ok = deliver(from, vote(st, g))
 			hostileBefore++
@@ -313,6 +352,9 @@ func c09Prop(c c09Case) common.Result {
 		if expectQC && nB1 == 0 && nOther == 0 && cl.blsQuirkAmong(sub, S, b1.ToBytes()) {
 			return common.Fail(kit.KnownBLS, "a quorum of valid votes has arrived but no certificate was produced: the collector's scheme rejects one of the valid BLS votes although the signature satisfies the verification equation in other arrangements\n%s", desc)
 		}
+		if expectQC && nB1 == 0 && nOther == 0 && floods > 0 && dropLog != nil && dropLog.contains("event queue is full, dropped event") {
+			return common.Fail(knownFlood, "a quorum of valid votes for the block has arrived but no certificate was produced: votes that waited for the block were re-queued together with one replica's flood of votes for a block nobody stores, and the collector's event queue (capacity %d) dropped the oldest entries - the valid votes\n%s", c.LoopCap, desc)
+		}
 		if expectQC && nB1 == 0 && nOther == 0 {
 			return common.Fail("qc-missing", "a quorum of valid votes for the block has arrived but no certificate was produced\n%s%s", desc, diagnoseC09(c))
 		}
@@ -329,6 +371,9 @@ func c09Prop(c c09Case) common.Result {
 	}
 	if hostileBefore > 0 {
 		cls = append(cls, "hostile-votes")
+	}
+	if floods > 0 {
+		cls = append(cls, "flood-of-unknown-block-votes")
 	}
 	return common.OK(formedAt >= 0 && (hostileBefore > 0 || early > 0), "", cls...)
 }
@@ -370,6 +415,13 @@ func genC09(async bool) func(rt *rapid.T) c09Case {
 			c.Msgs = append(c.Msgs, vmsg{K: rapid.SampledFrom(kinds).Draw(rt, "k"), From: rapid.IntRange(2, c.N).Draw(rt, "from")})
 		}
 		sort.SliceStable(c.Msgs, func(i, j int) bool { return false })
+		if rapid.IntRange(0, 5).Draw(rt, "flood") == 0 {
+			// the collector's event queue is as small as the repository's wiring makes it, and one replica floods it
+			c.LoopCap = 100
+			at := rapid.IntRange(0, len(c.Msgs)).Draw(rt, "flood-at")
+			f := vmsg{K: "flood", From: rapid.IntRange(2, c.N).Draw(rt, "flooder"), Count: rapid.IntRange(60, 140).Draw(rt, "flood-count")}
+			c.Msgs = append(c.Msgs[:at], append([]vmsg{f}, c.Msgs[at:]...)...)
+		}
 		return c
 	}
 }
